@@ -12,7 +12,8 @@ func init() {
 }
 
 // HarnessC17: a = {client: 0 tunnel, 1 router, 2 group layer, 3 tunnel through handleTunnelReq (UDP),
-// 4 the same in TCP mode; k telegrams; consumer: 0 always
+// 4 the same in TCP mode, 5/6 a tunnel client built by the real NewTunnel (UDP/TCP) fed through its
+// socket; k telegrams; consumer: 0 always
 // waiting, 1 absent during the burst, 2 takes one telegram then stalls, 3 takes one telegram, stalls and resumes
 // in the middle of the burst}. The server side
 // accepts m1..mk in order; the application must see them in that order.
@@ -44,6 +45,15 @@ func HarnessC17(a []int) {
 		inbound = conn.inbound
 		push = func(m cemi.Message) {
 			conn.handleTunnelReq(&knxnet.TunnelReq{Channel: 9, SeqNumber: seq, Payload: m}, &seq)
+		}
+	case 5, 6:
+		// the real tunnel client behind its constructor (5 UDP, 6 TCP): requests enter through the socket
+		conn, g, c := newBBTunnel(client == 6)
+		var seq uint8
+		inbound = conn.Inbound()
+		push = func(m cemi.Message) {
+			g.in <- &knxnet.TunnelReq{Channel: c, SeqNumber: seq, Payload: m}
+			seq++
 		}
 	default:
 		ch := make(chan cemi.Message)
@@ -109,7 +119,7 @@ func HarnessC17(a []int) {
 			verifAssert("C17.group.order", id == i+1)
 		case mode == 0:
 			verifAssert("C17.ready.order", id == i+1)
-		case client == 0 || client == 3 || client == 4:
+		case client == 0 || client == 3 || client == 4 || client == 5 || client == 6:
 			verifAssert("C17.tunnel.stalled.order", id == i+1)
 		default:
 			verifAssert("C17.router.stalled.order", id == i+1)
